@@ -571,6 +571,29 @@ func init() {
 		waitGoroutines(base)
 		return rrState()
 	})
+	// the error a failed look-up comes back with is not always the same: the name server's authoritative "no such host"
+	// (nf), a time-out (tmp). Each of them is a failed resolution like any other.
+	for _, kind := range []string{"nf", "tmp"} {
+		kind := kind
+		mk := func(host string) error {
+			if kind == "nf" {
+				return &net.DNSError{Err: "no such host", Name: host, IsNotFound: true}
+			}
+			return &net.DNSError{Err: "i/o timeout", Name: host, IsTimeout: true, IsTemporary: true}
+		}
+		vReg("res fail"+kind, func(a []string) string {
+			base := runtime.NumGoroutine()
+			vRes.addressResolved(unhx(a[0]), nil, mk(unhx(a[0])))
+			waitGoroutines(base)
+			return rrState()
+		})
+		vReg("res2 fail"+kind, func(a []string) string {
+			base := runtime.NumGoroutine()
+			dynamicHostResolver.addressResolved(unhx(a[0]), nil, mk(unhx(a[0])))
+			waitGoroutines(base)
+			return rrState()
+		})
+	}
 	vReg("res2 fail", func(a []string) string {
 		base := runtime.NumGoroutine()
 		dynamicHostResolver.addressResolved(unhx(a[0]), nil, fmt.Errorf("scripted resolution failure"))
